@@ -51,7 +51,11 @@ func c14Num(r *rand.Rand) float64 {
 		}
 		return float64(r.Intn(200000) - 100000)
 	}
-	switch r.Intn(5) {
+	switch r.Intn(6) {
+	case 5:
+		// boundaries of the integer and float ranges
+		b := []float64{9007199254740992, 9007199254740994, 2147483648, 4294967296, 9223372036854775807, 9223372036854775808, 1e19, -1e19, 18446744073709551616, 1e300, -1e300, 1.7976931348623157e308, 1e-7, 5e-324, 1.5e-300, 123456789012345680000}
+		return b[r.Intn(len(b))]
 	case 0:
 		return float64(r.Intn(100))
 	case 1:
